@@ -21,7 +21,7 @@ RULE = (
     "caller-held values survive). The same graphs with the interrupt inside a nested graph (depth 1-2) for pause identity. AsyncRunner under SimLoop with "
     "seeded delays on siblings and handlers. Reference = the run in which every handler itself returns the response. Non-trivial = at least one pause and "
     "one resume happened; distinct = digest of (program shape, interrupt positions, script, schedule)."
-    ' Also: legal but falsy answers (0, False, "", []), interrupts that emit a signal a further node waits for, explicit select of all outputs with on_missing="error" on every call, wrappers mounted under a node name that differs from the inner graph\'s name, at most one handler may return None per run; cacheable interrupts on a cache-enabled runner: unanswered / answered / unanswered again / answered differently, each compared with the same call on a runner without a cache.'
+    ' Also: legal but falsy answers (0, False, "", []), interrupts that emit a signal a further node waits for, explicit select of all outputs with on_missing="error" on every call, wrappers mounted under a node name that differs from the inner graph\'s name, at most one handler may return None per run; cacheable interrupts on a cache-enabled runner: unanswered / answered / unanswered again / answered differently, each compared with the same call on a runner without a cache; on_internal_override error/warn/ignore on every call (an answer is a resume value, not an override, also for outputs nobody consumes).'
 )
 ASSUMPTIONS = [
     "consumers of an interrupt's output never carry a signature default for it (such a consumer legitimately runs early)",
@@ -79,7 +79,10 @@ def gen_case(rng: random.Random, tier: str) -> dict:
     inp = gen.gen_inputs(rng, g, p_bind=0.0, p_omit=0.3)
     cache_ints = sorted(nd["name"] for nd in g["nodes"] if nd["kind"] == "interrupt" and rng.random() < 0.7) if rng.random() < 0.3 else []
     return {"cache_ints": cache_ints, "graph": g, "inputs": inp, "script": script, "nest": nest, "nest_seed": rng.randrange(1 << 30), "cfg": gen.gen_async_cfg(rng, allow_hold=False), "ref_cfg": gen.gen_async_cfg(rng, allow_hold=False),
-            "explicit_select": rng.random() < 0.3}  # select=<all data outputs>, on_missing="error" on every call of the history
+            "explicit_select": rng.random() < 0.3,  # select=<all data outputs>, on_missing="error" on every call of the history
+            # policy for caller-supplied values that collide with internal values, on every call: an ANSWER to an interrupt is a resume
+            # value, never an override - whether or not any node consumes that output
+            "override_policy": rng.choice([None, None, "error", "warn", "ignore"])}
 
 
 def _graph_name(nd: dict, p: dict) -> str:
@@ -154,6 +157,8 @@ def run_case(doc: dict) -> dict:
         names = [o for nd in g["nodes"] for o in nd["outs"]]
         if names:
             rkw = {"select": names, "on_missing": "error"}
+    if doc.get("override_policy"):
+        rkw = dict(rkw, on_internal_override=doc["override_policy"])
     try:
         # reference: every handler answers itself
         wref = run_world(g, values0, mode="async", cfg=doc["ref_cfg"], run_kwargs=dict(rkw))
